@@ -460,8 +460,9 @@ def gen_qemu(rng):
         ds = str(rng.randrange(0, 3000)) if rng.random() < 0.7 else '0' * rng.randrange(1, 3) + str(rng.randrange(0, 50))
         e = rng.choice('eE') + rng.choice(['+', '+', '-']) + str(rng.randrange(0, 14) if rng.random() < 0.9 else rng.randrange(14, 400))
         d = ds + e + rng.choice(QWS) + rng.choice(QEMU_UNITS[:12])
-        if rng.random() < 0.2:
-            d += ' (%d bytes)' % rng.randrange(0, 10 ** 6)
+        if rng.random() < 0.35:
+            d += rng.choice(QWS) + '(%d%sbytes)' % (rng.randrange(0, 2 ** 45), rng.choice([' ', '  ']))
+            return d, 'qemu/e-notation+bytes'
         return d, 'qemu/e-notation'
     if r < 0.72:
         return rng.choice(['None', 'unavailable', 'none', 'Unavailable', 'None ', '', 'n/a', 'unknown']), 'qemu/word'
@@ -697,7 +698,12 @@ def assess_s2b(sys, text, ri):
     return ('int-not-ceil', 'got %d, ceiling of the exact quantity is %d (beyond 2^-50)' % (k, ceil_fr(q)), None)
 
 
-QEMU_FORM = re.compile(r'(\d+|\d*\.\d+)([ \t]*)([A-Za-z]*)(?:([ \t]*)\([ \t]*(\d+)[ \t]+bytes[ \t]*\))?\Z')
+QEMU_NUM = r'([0-9]+[eE][-+][0-9]+|\d+|\d*\.\d+)'
+# <number>[ws][unit] to the end of the field
+QEMU_FORM = re.compile(QEMU_NUM + r'([ \t]*)([A-Za-z]*)\Z')
+# [junk without digits or dots]<number>[ws][any letters][ws](<ws>N<ws>bytes<ws>)<anything>
+QEMU_BYTES_FORM = re.compile(r'[^\d.]*' + QEMU_NUM + r'[ \t]*[A-Za-z]*[ \t]*\([ \t]*([0-9]+)[ \t]+[bB][yY][tT][eE][sS][ \t]*\)',
+                             re.S)
 QEMU_UNIT_OK = {c + s for c in LETTERS for s in ('', 'B', 'iB')} | {'B'}
 
 
@@ -729,34 +735,48 @@ def assess_qemu(details, through_object=None):
     if py[0] == 'err' and py[1] != 'ValueError':
         return ('wrong-exception', 'size field raised %s' % py[1],
                 'N3-float-range' if py[1] == 'OverflowError' and qemu_beyond_binary64(details) else None)
+    # (1) an explicit "(N bytes)" figure takes precedence whatever the magnitude and unit look like
+    mb = QEMU_BYTES_FORM.match(details)
+    if mb:
+        n = int(mb.group(2))
+        if py == ('int', n):
+            return None
+        return ('bytes-figure-ignored', 'size field %r gave %s, the explicit figure is %d bytes'
+                % (details[:70], show(py), n), None)
+    # (2) otherwise the human-readable arithmetic
     m = QEMU_FORM.match(details)
     if not m:
         return None
-    num, _ws, unit, _ws2, n = m.groups()
+    num, _ws, unit = m.groups()
+    n = None
     if unit and unit not in QEMU_UNIT_OK:
         return None
-    if n is not None:
-        want, exact, q = int(n), True, None
+    if 'e' in num.lower():
+        ds, es = re.split('[eE]', num)
+        if len(es) > 4:
+            return None
+        mag = Fraction(int(ds)) * Fraction(10) ** int(es)
+        if mag.denominator != 1 or mag >= 2 ** 53:
+            return None                 # format(float(..), '.0f') rounds: no opinion
+    elif '.' in num:
+        ip, fp = num.split('.')
+        mag = Fraction(digits_value(ip + fp), 10 ** len(fp))
     else:
-        if '.' in num:
-            ip, fp = num.split('.')
-            mag = Fraction(digits_value(ip + fp), 10 ** len(fp))
-        else:
-            mag = Fraction(digits_value(num))
-        if not unit or unit == 'B':
-            if '.' in num and not unit:
-                return None             # qemu-img never prints a bare fractional number: no opinion
-            q = mag
-        else:
-            q = mag * 1024 ** SPEC_EXP[unit[0]]
-        want, exact = ceil_fr(q), is_b64(mag) and is_b64(q)
-        if out_of_range(mag, q, mag):
-            exact = False
+        mag = Fraction(digits_value(num))
+    if not unit or unit == 'B':
+        if '.' in num and not unit:
+            return None                 # qemu-img never prints a bare fractional number: no opinion
+        q = mag
+    else:
+        q = mag * 1024 ** SPEC_EXP[unit[0]]
+    want, exact = ceil_fr(q), is_b64(mag) and is_b64(q)
+    if out_of_range(mag, q, mag):
+        exact = False
     if py == ('int', want):
         return None
     if py[0] != 'int':
         return ('rejected', 'size field %r gave %s, expected %d' % (details[:60], show(py), want), None)
-    if n is not None or exact:
+    if exact:
         return ('value', 'size field %r gave %d, expected %d' % (details[:60], py[1], want), None)
     if out_of_range(mag, q, mag):
         return ('value', 'size field gave %d, expected %d (denormal range)' % (py[1], want), 'N3-float-range')
@@ -780,6 +800,9 @@ def assess(case):
 
 
 UNI_DIGITS = '٣۴५๓３'
+QEMU_SEARCH_FIXED = ['1e+03 MiB (1048575488 bytes)', '1e+3 (7 bytes)', '2.5e+3G (5 bytes)', '1E-2 K ( 12  BYTES ) x',
+                     '1.5G (1610612736 bytes)', '1 GiB (1073741824 bytes)', 'about 3 foo (9 bytes), sparse', '196 KiB',
+                     '65536', '1e+3', '1e+3K', '12e+2 MiB']
 
 
 def search_texts(ctx, n):
@@ -858,6 +881,12 @@ def search(ctx, seeds, full=False):
             record({'fn': 's2b', 'unit_system': sys, 'text': text, 'return_int': ri}, r)
             if len(new) >= 5:
                 break
+    for d in QEMU_SEARCH_FIXED:
+        ctx.evaluations += 1
+        r = assess_qemu(d)
+        if r:
+            ctx.count('search/qemu/fail/' + r[0])
+            record({'fn': 'qemu', 'details': d}, r)
     for i in range(nq):
         if len(new) >= 5:
             break
